@@ -91,10 +91,21 @@ func compilerFieldOffset(w *World, name string) int {
 	panic("compiler field " + name)
 }
 
+type tmplHooks struct {
+	setPos func(st *State, c *Term, pos *Term)
+	acc    func(st *State) *tAcc
+	setMethod func(string)
+}
+
 // extractTemplates runs every node method of the compiler and returns its traces.
 func extractTemplates(w *World, e *Exec) []*tTrace {
+	h := installTemplateHooks(w, e)
+	return runTemplateMethods(w, e, h)
+}
+
+// installTemplateHooks intercepts the emission helpers of the compiler.
+func installTemplateHooks(w *World, e *Exec) *tmplHooks {
 	loadOpNames(w)
-	var traces []*tTrace
 	bcOff := compilerFieldOffset(w, "bytecode")
 	setPos := func(st *State, c *Term, pos *Term) {
 		st.ghost["pos"] = pos
@@ -316,6 +327,13 @@ func extractTemplates(w *World, e *Exec) []*tTrace {
 		e.runFrom(st, fr, b, 0)
 		return true
 	}
+	return &tmplHooks{setPos: setPos, acc: acc, setMethod: func(m string) { curMethod = m }}
+}
+
+func runTemplateMethods(w *World, e *Exec, h *tmplHooks) []*tTrace {
+	var traces []*tTrace
+	setPos, acc := h.setPos, h.acc
+	var curMethod string
 	var methods []string
 	for n, fn := range w.Funcs {
 		if strings.HasPrefix(n, "compiler.compiler.") && strings.HasSuffix(n, "Node") && fn.Signature.Params().Len() == 1 {
@@ -326,6 +344,7 @@ func extractTemplates(w *World, e *Exec) []*tTrace {
 	for _, mname := range methods {
 		fn := w.Funcs[mname]
 		curMethod = strings.TrimPrefix(mname, "compiler.compiler.")
+		h.setMethod(curMethod)
 		st := NewState()
 		e.paramMode = true
 		cv := e.havocValue(st, fn.Params[0].Type(), "c")
@@ -333,7 +352,7 @@ func extractTemplates(w *World, e *Exec) []*tTrace {
 		e.paramMode = false
 		st.Assume(Not(Eq(cv.One(), NilLoc)))
 		st.Assume(Not(Eq(nv.One(), NilLoc)))
-		st.Assume(Not(Eq(LObj(cv.One()), LObj(nv.One()))))
+		AssumeDistinctObjs(st, cv.One(), nv.One())
 		p0 := Fresh("pos0", SBV(64))
 		st.Assume(BVCmp("bvsge", p0, BV64(0)))
 		st.Assume(BVCmp("bvslt", p0, BV64(1<<40)))
